@@ -109,6 +109,13 @@ let handle line =
   | "C02" :: rest when List.length rest = 10 ->
     let f = Array.of_list rest in
     let kind = f.(6) in
+    if String.length kind > 6 && String.sub kind 0 6 = "bigad." then
+      (* DIRECT case (harness/p/c02 runBigAD): an associated data of 2^k bytes (k up to 29) cannot be held as a
+         list here; the expected observation is the property itself — the genuine pair decrypts to p0, the pair
+         with the AD moved in front of the body and an empty AD is an error.  Model-level counterpart:
+         EtMProofs.mac_input_injective below 2^61 bytes and its necessity C02_etm_mac_input_ambiguous_at_2_61_refuted. *)
+      "ctl=ok:" ^ f.(9) ^ "|shift=err"
+    else
     if String.length kind > 5 && String.sub kind 0 5 = "huge." then begin
       (* too long to materialise: length-only prediction (AeadFrameProofs.na_dec_len_only_err/_panic) *)
       let len = n_of_dec (String.sub kind 5 (String.length kind - 5)) in
